@@ -1,5 +1,6 @@
 import WfProofs.KeyedLockGlobal
 import WfProofs.KeyedLockExt
+import WfProofs.KeyedLockRefine
 /-!
 # C25 — the keyed lock gives per-key mutual exclusion and cleans up
 
@@ -319,3 +320,63 @@ theorem C25_cancelled_waiter_leaves (acts : List Act) (k a : Nat) (l : Lock)
 example :
     ((run [⟨7, .enter 1⟩, ⟨7, .enter 2⟩, ⟨7, .enter 3⟩, ⟨7, .exit 1⟩, ⟨7, .cancel 2⟩]).slot 7).lock
       = some ⟨false, [(2, .wokenCancelled), (3, .pending)]⟩ := by decide
+
+/-! ## refinement: KeyedLock is a per-key FIFO ticket lock -/
+
+/-- For every history and every key, the lock state of key `k` (who is inside, the FIFO
+queue with who is cancelled), seen through the abstraction `absK` that forgets `_refs`,
+the `_locks` entry, `_locked` and the future states, is exactly the state of the
+specification (`WfModel/KeyedLockSpec.lean`: one holder, one FIFO queue, entitlement by
+position, no wake-ups, no refcounts) after the actions of the history that are on key `k`
+— actions on other keys do not appear at all. -/
+theorem C25_refines_ticket_lock (acts : List Act) (k : Nat) :
+    absK ((run acts).slot k) = specRun k acts := by
+  have := c25x_refines_run acts k ginv_init
+  simpa [specRun, absK, init] using this
+
+/-- non-vacuity: hand-over past a cancelled waiter, with interleaved actions on another key. -/
+example :
+    specRun 7 [⟨7, .enter 1⟩, ⟨7, .enter 2⟩, ⟨8, .enter 1⟩, ⟨7, .enter 3⟩, ⟨7, .cancel 2⟩, ⟨7, .exit 1⟩,
+               ⟨7, .enter 4⟩] = ⟨none, [(2, .cancelled), (3, .waiting), (4, .waiting)]⟩ ∧
+    specRun 7 [⟨7, .enter 1⟩, ⟨7, .enter 2⟩, ⟨7, .exit 1⟩, ⟨7, .cancel 2⟩, ⟨7, .enter 3⟩] =
+      ⟨none, [(2, .grantCancelled), (3, .waiting)]⟩ := by decide
+
+/-- The refinement is action by action and covers enabledness: in every reachable state
+an action succeeds in the implementation model iff the specification enables it, and then
+the resulting states correspond (so no implementation step is invisible to, or refused by, the
+specification: wake-ups, refcounts and entry creation/deletion are pure bookkeeping). -/
+theorem C25_refines_ticket_lock_step (acts : List Act) (x : Act) :
+    tstep (absK ((run acts).slot x.key)) x.act =
+      (match step (run acts) x with
+       | .ok s' => some (absK (s'.slot x.key))
+       | .error _ => none) := by
+  have hg := ginv_run acts
+  rw [c25x_refines_step x.act (hg.2 x.key).1]
+  simp only [step, hg.1]
+  cases kstep false ((run acts).slot x.key) x.act <;> simp [KL.set]
+
+example :
+    tstep (absK ((run [⟨7, .enter 1⟩, ⟨7, .enter 2⟩]).slot 7)) (.resume 2) = none ∧
+    tstep (absK ((run [⟨7, .enter 1⟩, ⟨7, .enter 2⟩, ⟨7, .exit 1⟩]).slot 7)) (.resume 2) = some ⟨some 2, []⟩ := by
+  decide
+
+/-- The abstraction loses nothing about emptiness: in a reachable state key `k` has lock
+state (`_locks`/`_refs` entry, holder) iff the specification has a holder or a waiter. -/
+theorem C25_spec_empty_iff (acts : List Act) (k : Nat) :
+    specRun k acts = {} ↔ (run acts).slot k = {} := by
+  rw [← C25_refines_ticket_lock]
+  constructor
+  · intro h
+    apply C25_cleanup_key
+    have h1 : ((run acts).slot k).inside.head? = none := congrArg TSt.holder h
+    have h2 := congrArg TSt.queue h
+    simp only [absK] at h2
+    have hin : ((run acts).slot k).inside = [] := List.head?_eq_none_iff.mp h1
+    simp only [ids, hin, List.nil_append]
+    cases hl : ((run acts).slot k).lock with
+    | none => rfl
+    | some l =>
+      rw [hl] at h2
+      have : l.waiters = [] := List.map_eq_nil_iff.mp h2
+      simp [this]
+  · intro h; rw [h]; rfl
